@@ -57,7 +57,7 @@ func TestVerifReplayPathStrings(t *testing.T) {
 	gen("", 5)
 	fmt.Printf("REPLAY-CASES fn=%s n=%d\n", fnP, n)
 	// 2. round trip through the string form
-	vals := []string{"a", "a b", "a/b", "a_b", "a:b", "a=b", "a=b=c", "=", "x=", "cn=core,dc=lab", "ethernet-1/1", "a\\b"}
+	vals := []string{"a", "a b", "a/b", "a_b", "a:b", "a=b", "a=b=c", "=", "x=", "cn=core,dc=lab", "ethernet-1/1", "a\\b", "\"uplink\"", "'x'", "x\"y\"", "\""}
 	brackets := []string{"a]b", "a[b", "[x]"}
 	m, k := 0, 0
 	check := func(p *sdcpb.Path, known bool) {
@@ -81,6 +81,12 @@ func TestVerifReplayPathStrings(t *testing.T) {
 		for _, v2 := range vals {
 			check(&sdcpb.Path{Elem: []*sdcpb.PathElem{{Name: "doublekey", Key: map[string]string{"key1": v1, "key2": v2}}, {Name: "mandato"}}}, false)
 		}
+	}
+	// recorded finding: key values the string form cannot carry (ParsePath trims spaces around a key value, as leafref paths
+	// written in YANG need it to; it refuses an empty value and a value ending in a backslash; "a:/b" in a relative path is
+	// taken for an origin)
+	for _, v := range []string{" a", "a ", "", "a\\", "a:/b"} {
+		check(&sdcpb.Path{Elem: []*sdcpb.PathElem{{Name: "interface", Key: map[string]string{"name": v}}, {Name: "description"}}}, true)
 	}
 	for _, v := range brackets {
 		check(&sdcpb.Path{Elem: []*sdcpb.PathElem{{Name: "interface", Key: map[string]string{"name": v}}, {Name: "description"}}}, false)
